@@ -11,6 +11,7 @@ import (
 	"hash/fnv"
 	"net"
 	"sort"
+	"strconv"
 	"strings"
 	"sync"
 	"testing"
@@ -50,7 +51,7 @@ type c04Case struct {
 }
 
 const c04Rule = "case = protocol (ipfix | nf9) + 2..6 (exporter address, template id) slots (IPv4 4-byte, IPv4-mapped, IPv6; ids shared across exporters; adversarial pairs that collide on the cache's " +
-	"full 32-bit FNV-1 hash or share a shard, found by searching ~1.5M keys) + 2..30 operations: announce (alone or with data in the same message), re-announce with a different definition " +
+	"full 32-bit FNV-1 hash, share a shard, or share a shard and have the same text when address and id are written without separator; found by searching ~1.5M keys) + 2..30 operations: announce (alone or with data in the same message), re-announce with a different definition " +
 	"(same record length with other elements, same elements with other field lengths, or a fresh template), data under the model's current template, data for a never-announced slot, peer Get (ipfix), and messages mixing data sets and (re-)announcements of several ids of one exporter in any order; " +
 	"invariant after every step = decode equals the reference expectation under the model's template for exactly that slot, unannounced slots give an 'unknown template' error and no records, peer Get returns the model's template or 'not available'; " +
 	"non-trivial = a re-announcement followed by data, or >= 2 exporters using one id with different definitions, or a colliding pair in use; distinct by hash"
@@ -63,6 +64,10 @@ var (
 	collideOnce  sync.Once
 	fullCollide  []keyPair // same 32-bit hash
 	shardCollide []keyPair // same shard (hash mod 32), different hash
+	// textTwins: distinct (address, id) pairs in one shard whose textual rendering "address" + "id" coincides
+	// when written without a separator ("10.0.0.1"+"3328" == "10.0.0.13"+"328"): a map key built that way
+	// confuses two exporters although their hashes differ
+	textTwins []keyPair
 )
 
 func fnvKey(addr []byte, id uint16) uint32 {
@@ -103,6 +108,50 @@ func findCollisions() {
 				continue
 			}
 			seen[h] = s
+		}
+		// textual twins: B's address text = A's text + digit(s) d, idA = d || idB (decimal), same shard
+		for last := 1; last <= 25 && len(textTwins) < 48; last++ {
+			for k := 0; k <= 9; k++ {
+				if last*10+k > 255 {
+					continue
+				}
+				for idB := 256; idB < 6553 && len(textTwins) < 48; idB++ {
+					idA, _ := strconv.Atoi(strconv.Itoa(k) + strconv.Itoa(idB))
+					if k == 0 || idA > 65535 || idA < 256 {
+						continue
+					}
+					for _, form := range []int{4, 16} {
+						a := net.IPv4(10, 0, 0, byte(last)).To4()
+						b := net.IPv4(10, 0, 0, byte(last*10+k)).To4()
+						if form == 16 {
+							a, b = a.To16(), b.To16()
+						}
+						A := c04Slot{Addr: append([]byte{}, a...), ID: uint16(idA)}
+						B := c04Slot{Addr: append([]byte{}, b...), ID: uint16(idB)}
+						if fnvKey(A.Addr, A.ID)%32 == fnvKey(B.Addr, B.ID)%32 {
+							textTwins = append(textTwins, keyPair{A, B})
+						}
+					}
+				}
+			}
+		}
+		// IPv6 twins: 2001:db8::1 + "4512" vs 2001:db8::14 + "512"
+		for lo := 1; lo <= 9 && len(textTwins) < 64; lo++ {
+			for k := 1; k <= 9; k++ {
+				for idB := 256; idB < 6553 && len(textTwins) < 64; idB++ {
+					idA, _ := strconv.Atoi(strconv.Itoa(k) + strconv.Itoa(idB))
+					if idA > 65535 {
+						continue
+					}
+					a := net.ParseIP(fmt.Sprintf("2001:db8::%d", lo))
+					b := net.ParseIP(fmt.Sprintf("2001:db8::%d%d", lo, k))
+					A := c04Slot{Addr: append([]byte{}, a...), ID: uint16(idA)}
+					B := c04Slot{Addr: append([]byte{}, b...), ID: uint16(idB)}
+					if fnvKey(A.Addr, A.ID)%32 == fnvKey(B.Addr, B.ID)%32 {
+						textTwins = append(textTwins, keyPair{A, B})
+					}
+				}
+			}
 		}
 		// same-shard pairs are trivial to find
 		var first [32]*c04Slot
@@ -151,7 +200,13 @@ func genC04(t *rapid.T, proto string, env *wire.GenEnv) c04Case {
 			c.Slots = append(c.Slots, s)
 		}
 	}
-	switch rapid.IntRange(0, 3).Draw(t, "adversarial") {
+	switch rapid.IntRange(0, 4).Draw(t, "adversarial") {
+	case 4:
+		if len(textTwins) > 0 {
+			p := textTwins[rapid.IntRange(0, len(textTwins)-1).Draw(t, "texttwin")]
+			addSlot(p.A)
+			addSlot(p.B)
+		}
 	case 0:
 		if len(fullCollide) > 0 {
 			p := fullCollide[rapid.IntRange(0, len(fullCollide)-1).Draw(t, "fullpair")]
@@ -264,46 +319,8 @@ func genC04(t *rapid.T, proto string, env *wire.GenEnv) c04Case {
 	return c
 }
 
-// redefineOtherLengths keeps the elements (ids, enterprise numbers, order) and changes only field lengths:
-// a cache that compares announcements by element only would take it for a refresh.
 func redefineOtherLengths(t *rapid.T, cur *wire.Template) wire.Template {
-	tp := wire.Template{ID: cur.ID, Options: cur.Options}
-	chg := func(fs []wire.Field) []wire.Field {
-		var out []wire.Field
-		for _, f := range fs {
-			nf := f
-			nat := wire.NaturalSize(f.Type)
-			switch {
-			case f.Len == wire.VarLen:
-				nf.Len = uint16(rapid.IntRange(1, 12).Draw(t, "fixlen"))
-			case nat == 0:
-				nf.Len = uint16(rapid.IntRange(0, 24).Draw(t, "otherlen"))
-				if wire.IsVarType(f.Type) && rapid.IntRange(0, 3).Draw(t, "tovar") == 0 {
-					nf.Len = wire.VarLen
-				}
-			case int(f.Len) == nat:
-				nf.Len = uint16(rapid.IntRange(0, nat-1).Draw(t, "reducedlen"))
-			default:
-				nf.Len = uint16(nat)
-			}
-			out = append(out, nf)
-		}
-		return out
-	}
-	tp.Scope = chg(cur.Scope)
-	tp.Fields = chg(cur.Fields)
-	if tp.MinRecordLen() == 0 {
-		fs := tp.Fields
-		if len(tp.Scope) > 0 {
-			fs = tp.Scope
-		}
-		n := wire.NaturalSize(fs[0].Type)
-		if n == 0 {
-			n = 1
-		}
-		fs[0].Len = uint16(n)
-	}
-	return tp
+	return wire.RedefineOtherLengths(t, cur)
 }
 
 // redefineSameLength returns a template with the same field lengths but other elements
